@@ -23,9 +23,31 @@ Definition F_floor (x : float) : Z :=
   end.
 Definition F_ceil (x : float) : Z := (- F_floor (PrimFloat.opp x))%Z.
 
+(* exact value of a finite float as  m * 2^e  (m signed) *)
+Definition F_decode (x : float) : option (Z * Z) :=
+  match Prim2SF x with
+  | S754_zero _ => Some (0, 0)%Z
+  | S754_finite s m e => Some (if s then Zneg m else Zpos m, e)
+  | _ => None
+  end.
+Definition F_ofZ_big (z : Z) : float :=
+  if (Z.abs z <? 2 ^ 62)%Z then F_ofZ z
+  else PrimFloat.add (PrimFloat.mul (F_ofZ (z / 2 ^ 32)) (F_ofZ (2 ^ 32))) (F_ofZ (z mod 2 ^ 32)).
+(* python's float % for a positive divisor: exact remainder with the sign of the divisor *)
+Definition F_fmod (x y : float) : float :=
+  match F_decode x, F_decode y with
+  | Some (mx, ex), Some (my, ey) =>
+      if (my =? 0)%Z then PrimFloat.nan else
+      let e := Z.min ex ey in
+      let X := (mx * 2 ^ (ex - e))%Z in
+      let Y := (my * 2 ^ (ey - e))%Z in
+      Z.ldexp (F_ofZ_big (X mod Y)) e
+  | _, _ => PrimFloat.nan
+  end.
+
 Definition Fops : NumOps float :=
   MkNumOps float PrimFloat.add PrimFloat.sub PrimFloat.mul PrimFloat.div PrimFloat.opp
-    PrimFloat.sqrt PrimFloat.ltb PrimFloat.leb PrimFloat.eqb F_ofZ F_ceil F_floor.
+    PrimFloat.sqrt PrimFloat.ltb PrimFloat.leb PrimFloat.eqb F_ofZ F_ceil F_floor F_fmod.
 
 (* helpers for correspondence files *)
 Definition Fabs (x : float) : float := PrimFloat.abs x.
